@@ -44,7 +44,11 @@ UNARMOR_SPEC = '''
 /// and the result has ceil(6n/8) bytes
 pub open spec fn all_armor(data: Seq<u8>) -> bool { forall|i: int| 0 <= i < data.len() ==> sixbit(#[trigger] data[i]) is Some }
 pub open spec fn unarmor_ok(data: Seq<u8>, fill: int, out: Seq<u8>) -> bool {
-    all_armor(data) && out.len() == (6 * data.len() + 7) / 8
+    &&& all_armor(data)
+    &&& out.len() == (6 * data.len() + 7) / 8
+    // the bit stream (MSB first) is the concatenation of the 6-bit values with the last `fill` of those 6n bits, and every
+    // bit beyond 6n, forced to zero
+    &&& packed(out, data, 6 * (data.len() as int) - fill)
 }
 pub open spec fn unarmor_C03(data: Seq<u8>, fill: int, r: Result<AisRawData>) -> bool {
     &&& (r is Ok <==> all_armor(data))
@@ -77,4 +81,12 @@ def apply(fc):
             it.index@ <= data.len(),
             small(data@.len() as int),
             forall|j: int| 0 <= j < it.index@ ==> sixbit(#[trigger] data@[j]) is Some,
-    {''', kind='loop')
+            packed(output@, data@, 6 * it.index@),
+    {
+        let ghost out0 = output@;
+        let ghost idx = offset as int / 6;
+''', kind='loop')
+    fc.insert_before('unarmor', 'let mut offset = 0;', 'proof { lemma_zero_packed(output@, data@); }\n    ')
+    fc.insert_before('unarmor', 'if fill_bits != 0 && byte_count != 0 {', 'let ghost out_pre = output@;\n    ')
+    fc.insert_before('unarmor', 'Ok(output)', 'proof { if fill_bits != 0 && byte_count != 0 { lemma_unarmor_mask_imp(out_pre, output@, data@, fill_bits as int); } }\n    ')
+    fc.insert_before('unarmor', 'offset += 6;', 'proof { lemma_unarmor_step_imp(out0, output@, data@, idx, sv(*byte)); }\n        ')
